@@ -1558,7 +1558,7 @@ namespace awkward {
       }
     }
     for (size_t i = 0;  i < strides_.size();  i++) {
-      if (strides_[i] % itemsize_ != 0) {
+      if (itemsize_ != 0  &&  strides_[i] % itemsize_ != 0) {
         return (std::string("at ") + path + std::string(" (") + classname()
                 + std::string("): shape[") + std::to_string(i)
                 + ("] % itemsize != 0")
